@@ -200,7 +200,7 @@ Record case := {
 
 (* H1 and H2 on the doubles that occur *)
 Definition tab_ok (c : case) : bool :=
-  forallb (fun p => (negb (c_one c <=? fst p) || (fst p <=? snd p)) && (snd p <=? c_wmax c)) (c_tab c)
+  forallb (fun p => (negb (c_one c <=? fst p) || negb (fst p <=? c_wmax c) || (fst p <=? snd p)) && (snd p <=? c_wmax c)) (c_tab c)
   && (c_one c <=? c_w0 c) && (c_w0 c <=? c_wmax c).
 
 (* replays the observed steps; `pend` = a failed connect of the first Open has not been signalled as a
